@@ -473,14 +473,10 @@ class MarkdownNormalizer(Renderer):
 
         rendered = self.render_children(element)
 
-        # In a tight list, a heading that ends the item must not leave its blank line behind:
-        # it would make the list loose.
+        # In a tight list, a heading that ends the item (directly, or as the end of a nested
+        # list or quote) must not leave its blank line behind: it would make the list loose.
         heading_blank = "\n" + self._second_prefix.rstrip() + "\n"
-        if (
-            self._current_list_tight
-            and isinstance(element.children[-1], (block.Heading, block.SetextHeading))
-            and rendered.endswith(heading_blank)
-        ):
+        if self._current_list_tight and rendered.endswith(heading_blank):
             rendered = rendered[: -len(heading_blank)] + "\n"
             self._skip_next_blank_line = False
             self._suppress_item_break = False
